@@ -5,6 +5,7 @@
 //! plemma: C12 lemma_channel_tlv_records_carry_the_same_fields_on_both_sides: FundedChannel write / read
 //! plemma: C12 lemma_monitor_tlv_records_carry_the_same_fields_on_both_sides: write_chanmon_internal / ChannelMonitor read
 //! plemma: C12 lemma_scorer_tlv_records_carry_the_same_fields_on_both_sides: ChannelLiquidity write / read
+//! plemma: C12 lemma_manager_tlv_records_carry_the_same_fields_on_both_sides: ChannelManager::write / ChannelManagerData::read (10 of 18 records)
 //! trusted: assume_specification for core::cmp::max / core::cmp::min (std definitions): present in every unit so that a change that introduces them is verified instead of being rejected by the tool
 use vstd::prelude::*;
 verus! {
@@ -43,5 +44,16 @@ pub proof fn lemma_monitor_tlv_records_carry_the_same_fields_on_both_sides() ens
 //@fields tlvread scorer_tlvs_read only=0:min_liquidity_offset_msat,2:max_liquidity_offset_msat,4:last_updated,9:offset_history_last_updated,11:last_datapoint_time
 //@end
 pub proof fn lemma_scorer_tlv_records_carry_the_same_fields_on_both_sides() ensures scorer_tlvs_written() =~= scorer_tlvs_read() {}
+//@extract lightning/src/ln/channelmanager.rs :: impl Writeable for ChannelManager :: fn write
+//@fields tlvwrite manager_tlvs_written only=1:pending_outbound_payments_no_retry,3:pending_outbound_payments,4:pending_claiming_payments,6:monitor_update_blocked_actions_per_peer,7:fake_scid_rand_bytes,10:legacy_in_flight_monitor_updates,11:probing_cookie_secret,15:inbound_payment_id_secret,17:in_flight_monitor_updates,19:peer_storage_dir
+//@mutant legacy_in_flight_updates_written_under_the_type_of_the_current_ones
+    (17, in_flight_monitor_updates, option),
+//@with
+    (17, legacy_in_flight_monitor_updates, option),
+//@end
+//@extract lightning/src/ln/channelmanager.rs :: impl ReadableArgs<ChannelManagerDataReadArgs<'a, ES, SP, L>> for ChannelManagerData<SP> :: fn read
+//@fields tlvread manager_tlvs_read only=1:pending_outbound_payments_no_retry,3:pending_outbound_payments,4:pending_claiming_payments,6:monitor_update_blocked_actions_per_peer,7:fake_scid_rand_bytes,10:legacy_in_flight_monitor_updates,11:probing_cookie_secret,15:inbound_payment_id_secret,17:in_flight_monitor_updates,19:peer_storage_dir
+//@end
+pub proof fn lemma_manager_tlv_records_carry_the_same_fields_on_both_sides() ensures manager_tlvs_written() =~= manager_tlvs_read() {}
 }
 fn main() {}
